@@ -3085,6 +3085,7 @@ template <typename T>
           saturated_list.push_back(this);
         }
       }
+      send_ok_report<specialized>(name);
       for (auto& a : actions) a.action(params);
     }
 
@@ -3382,9 +3383,6 @@ template <typename T>
                       e.saturated,
                       func_name + std::string(" with signature ") + sig_name,
                       param_value);
-    }
-    else{
-        report_match(e.active);
     }
     trace_agent ta{i->loc, i->name, tracer_obj()};
     try
